@@ -9,6 +9,7 @@ import (
 	"fmt"
 	"path/filepath"
 	"sort"
+	"strings"
 
 	"github.com/grafana/cog/internal/ast"
 	"github.com/grafana/cog/internal/languages"
@@ -67,10 +68,64 @@ func typedRuleKinds(schemas ast.Schemas, o ast.Option) []string {
 	if t.IsDisjunction() || (t.IsRef() && resolveAll(schemas, t).IsStructGeneratedFromDisjunction()) {
 		kinds = append(kinds, "disjunction_as_options")
 	}
-	if resolveAll(schemas, t).Kind == ast.KindStruct {
+	// not on a struct that leads back to itself: with converters on, the PHP
+	// converter template then recurses without end (the listed
+	// C04-hang-php-Converter-Generate, which this check has no watchdog for)
+	if st := resolveAll(schemas, t); st.Kind == ast.KindStruct && !c07StructReachesItself(schemas, st) {
 		kinds = append(kinds, "struct_fields_as_arguments", "struct_fields_as_options")
 	}
 	return kinds
+}
+
+// c07StructReachesItself: following references from the fields of the struct
+// leads to a struct already on the way (any cycle, not only through the
+// struct itself).
+func c07StructReachesItself(schemas ast.Schemas, st ast.Type) bool {
+	onWay := map[string]bool{}
+	var visit func(t ast.Type, depth int) bool
+	visit = func(t ast.Type, depth int) bool {
+		if depth > 40 {
+			return true
+		}
+		switch {
+		case t.IsRef():
+			key := t.Ref.ReferredPkg + "." + t.Ref.ReferredType
+			if onWay[key] {
+				return true
+			}
+			obj, found := schemas.LocateObject(t.Ref.ReferredPkg, t.Ref.ReferredType)
+			if !found {
+				return false
+			}
+			onWay[key] = true
+			defer delete(onWay, key)
+			return visit(obj.Type, depth+1)
+		case t.IsStruct():
+			for _, f := range t.Struct.Fields {
+				if visit(f.Type, depth+1) {
+					return true
+				}
+			}
+		case t.IsArray():
+			return visit(t.Array.ValueType, depth+1)
+		case t.IsMap():
+			return visit(t.Map.ValueType, depth+1)
+		case t.IsDisjunction():
+			for _, b := range t.Disjunction.Branches {
+				if visit(b, depth+1) {
+					return true
+				}
+			}
+		case t.IsIntersection():
+			for _, b := range t.Intersection.Branches {
+				if visit(b, depth+1) {
+					return true
+				}
+			}
+		}
+		return false
+	}
+	return visit(st, 0)
 }
 
 // c07DrawVeneerRules draws a chain of 3-10 rules: mostly option rules whose
@@ -98,7 +153,26 @@ func c07DrawVeneerRules(rt *rapid.T, lang string, schemas ast.Schemas, builders 
 	var rules []c17Rule
 	for i := 0; i < n; i++ {
 		if len(typed) == 0 || rapid.IntRange(0, 3).Draw(rt, "anyrule") == 0 {
-			rules = append(rules, c17DrawRule(rt, lang, schemas, builders, rules))
+			// (struct_fields_* rules only come from the typed candidates above,
+			// which stay away from structs that lead back to themselves)
+			r := c17DrawRule(rt, lang, schemas, builders, rules)
+			if strings.HasPrefix(r.Kind, "struct_fields_") {
+				continue
+			}
+			// nor is the builder of such a struct omitted: its values are then
+			// passed as plain objects, which the PHP converter expands without end
+			if r.On == "builder" && r.Kind == "omit" {
+				cyclic := false
+				for _, b := range builders {
+					if (strings.EqualFold(b.Name, r.SelA) || strings.EqualFold(b.For.Name, r.SelA) || r.SelKind == "generated_from_disjunction" || r.SelKind == "by_variant") && c07StructReachesItself(schemas, b.For.Type) {
+						cyclic = true
+					}
+				}
+				if cyclic {
+					continue
+				}
+			}
+			rules = append(rules, r)
 			continue
 		}
 		from := typed
